@@ -200,7 +200,7 @@ class Check:
                 else:
                     self.expected_ok.append(job['name'])
                     # engine <-> native agreement on the seeded counterexample
-                    if ctx.get('replay') and ctx.get('validate_expected', True) and hit[0]['kind'] != 'concrete':
+                    if ctx.get('replay') and ctx.get('validate_expected', True) and not job.get('no_native'):
                         rp = self.write_replay(job, hit[0], ctx)
                         ok, out = self.native_replay(rp, ctx)
                         os.remove(rp)
